@@ -1079,7 +1079,8 @@ func runCase(id string, toks []string, bound time.Duration) (obs []string, flags
 	}
 	if len(h) > 11 {
 		r.srflx = geti(11) == 1
-		r.relay = geti(11) // 2 turns/tcp silent TLS server, 3 turn/tcp connect never completes, 4 turns/udp silent DTLS server
+		r.poisoned = r.poisoned || geti(11) == 3 // a connect that never completes: Close cannot return (known)
+		r.relay = geti(11)                       // 2 turns/tcp silent TLS server, 3 turn/tcp connect never completes, 4 turns/udp silent DTLS server
 	}
 	if r.srflx {
 		// the srflx gatherer relies on Close of its socket to abort the STUN exchange and on read
@@ -1134,7 +1135,7 @@ func runCase(id string, toks []string, bound time.Duration) (obs []string, flags
 		case <-sd:
 			continue
 		case <-time.After(3*r.bound + 5*time.Second):
-			r.ev.add("ABANDONED")
+			r.ev.add("ZZabandoned")
 		}
 
 		break
